@@ -50,6 +50,9 @@ def read_conv_attributes(ir_conv: ir.Node) -> dict[str, Sequence[int] | str]:
     attributes["strides"] = ir_attributes.get_ints(
         "strides", [1] * len(ir_conv.inputs[0].shape[2:])
     )
+    attributes["dilations"] = ir_attributes.get_ints(
+        "dilations", [1] * len(ir_conv.inputs[0].shape[2:])
+    )
     attributes["auto_pad"] = ir_attributes.get_string("auto_pad", "NOTSET")
     if "pads" in ir_attributes:
         attributes["pads"] = ir_attributes.get_ints("pads")
@@ -313,10 +316,11 @@ class NormalizePadFormatConv(_NormalizePadFormatBase):
 
         bottom_pads, top_pads = [], []
         kernel_shape, strides = attributes["kernel_shape"], attributes["strides"]
+        dilations = attributes.get("dilations", [1] * len(kernel_shape))
         assert len(kernel_shape) == len(strides) == len(input_shape) == len(output_shape)
-        for x, y, k, s in zip(input_shape, output_shape, kernel_shape, strides):
-            # Compute the output shape and the total padding to apply
-            total_pads = max(0, (y - 1) * s + k - x)
+        for x, y, k, s, d in zip(input_shape, output_shape, kernel_shape, strides, dilations):
+            # Compute the output shape and the total padding to apply (extent of the dilated kernel)
+            total_pads = max(0, (y - 1) * s + (k - 1) * d + 1 - x)
 
             # Depending of mode, apply the padding to the upper or lower part
             pad1 = total_pads // 2
